@@ -29,6 +29,7 @@ RULE = (
 ASSUMPTIONS = ["'reset once before the first row' is judged as 'at least once between the previous run's last event and the first row, none later' (validators reset at creation and again when rows() starts)"]
 
 LOG = []
+ERRORS_SEEN = []  # [expected row number, error class, row number in the error's location, text] of yielded errors
 _registered = {}
 
 
@@ -43,6 +44,9 @@ def _define(prefix):
     def validated_value(self, value):
         LOG.append(["validated_value", self.field_name, value])
         if value.startswith("REJ"):
+            if value.startswith("REJR"):
+                # a hook built on cutplace.ranges: Range.validate() raises a RangeValueError (another kind of data error)
+                raise errors.RangeValueError("recording field rejects %r" % value)
             raise errors.FieldValueError("recording field rejects %r" % value)
         return value
 
@@ -56,6 +60,9 @@ def _define(prefix):
     def check_row(self, field_name_to_value_map, location):
         LOG.append(["check_row", self.description, [field_name_to_value_map[n] for n in self.field_names]])
         if self.behaviour == "veto" and any(v.startswith("VETO") for v in field_name_to_value_map.values()):
+            if any(v.startswith("VETOB") for v in field_name_to_value_map.values()):
+                # the way the documentation shows it: without passing on the location
+                raise errors.CheckError("recording check %s vetoes the row" % self.description)
             raise errors.CheckError("recording check %s vetoes the row" % self.description, location)
 
     def check_at_end(self, location):
@@ -135,9 +142,9 @@ def gen_case(rng):
             elif roll < 0.84:
                 cell = rng.choice(["a", "abcdef", "abcdefgh"])  # may hit the length guard
             elif roll < 0.92:
-                cell = "REJ"
+                cell = rng.choice(["REJ", "REJ", "REJR"])
             else:
-                cell = "VETO"
+                cell = rng.choice(["VETO", "VETO", "VETOB"])
             if kind == "fixed":
                 cell = cell[:w] if rng.random() < 0.9 else cell
                 if len(cell) <= w:
@@ -252,8 +259,12 @@ def run_reader(cid, model, table, mode, limit, api):
     source = io.StringIO(text, newline="")
     try:
         if api == "rows":
-            for _ in cutplace.rows(cid, source, on_error=mode, validate_until=limit):
-                pass
+            for number, item in enumerate(cutplace.rows(cid, source, on_error=mode, validate_until=limit), 1):
+                if isinstance(item, Exception):
+                    # whoever rejected the row - a built-in guard, a user's value hook or a user's check -: the error
+                    # handed to the caller tells where
+                    location = getattr(item, "location", None)
+                    ERRORS_SEEN.append([number + model.header, type(item).__name__, None if location is None else location.line + 1, str(item)])
         elif api == "reader":
             reader = cutplace.Reader(cid, source, on_error=mode, validate_until=limit)
             try:
@@ -327,6 +338,7 @@ def check_case(ctx, model, table, plan):
     nontrivial = model.header > 0 or any(c["behaviour"] != "accept" for c in model.rec_checks)
     for index, (api, mode, limit) in enumerate(plan):
         del LOG[:]
+        del ERRORS_SEEN[:]
         raw = [list(r) for r in table]
         try:
             alternatives = []
@@ -353,6 +365,14 @@ def check_case(ctx, model, table, plan):
             ctx.violation("C20:crash:%s@%s.%s" % (type(error).__name__, mod, fn), case, "run %d failed with an internal error" % (index + 1), observed=error)
             return
         got = [list(e) for e in LOG]
+        bad_location = [e for e in ERRORS_SEEN if e[2] != e[0]]
+        ctx.count("yielded-errors.location-judged", len(ERRORS_SEEN))
+        del ERRORS_SEEN[:]
+        if bad_location:
+            ctx.case(case, True)
+            ctx.violation("C20:rejection-without-row:%s" % bad_location[0][1], dict(case, run=index + 1), "a rejection caused by a user-defined class does not tell its row",
+                          expected="row %d" % bad_location[0][0], observed=bad_location[0])
+            return
         ctx.count("runs.%s" % api)
         ctx.count("calls.observed", len(got))
         if api == "writer" and model.kind == "fixed":
